@@ -110,8 +110,7 @@ func (R *Repository) getOrAddEntry(identifier string, loader crlloader.CRLLoader
 }
 
 func (R *Repository) tryUpdateSignatureCertFromChain(entry *Entry, chains *core.CertificateChains) {
-	entry.entryLock.Lock()
-	defer entry.entryLock.Unlock()
+	//the caller (AddCRL) already holds the entry write lock, locking it again here would deadlock
 	//check if no other thread updated the signature in meantime
 	if entry.LastUpdateSignatureVerifyFailed == true {
 		signature, err := verifyCRLSignature(entry.LastUpdateSignature, chains)
